@@ -124,8 +124,20 @@ def container(src, kind, name):
     for a in re.findall(r"#\[([^\]]*)\]", m.group(1)):
         a = " ".join(a.split())
         if a.startswith("derive("):
-            if not re.search(r"\bSerialize\b", a) or not re.search(r"\bDeserialize\b", a):
-                raise Untranslatable("%s %s does not derive Serialize and Deserialize" % (kind, name))
+            if not re.search(r"\bSerialize\b", a):
+                raise Untranslatable("%s %s does not derive Serialize" % (kind, name))
+            if not re.search(r"\bDeserialize\b", a):
+                # accepted alternative (FilePath after the path-screening repair): a hand-written Deserialize whose
+                # wire form is the derived transparent one - it first deserialises the inner field's own type and
+                # only then screens the value - so the *serialised* schema, which is all C05 uses, is unchanged
+                im = re.search(r"impl<'de>\s+Deserialize<'de>\s+for\s+%s\s*\{\s*fn deserialize<D>\(deserializer: D\) -> "
+                               r"Result<Self, D::Error>\s*where\s*D: Deserializer<'de>,\s*\{\s*let (\w+) = "
+                               r"([A-Za-z:<>]+)::deserialize\(deserializer\)\?;" % name, src)
+                fm = re.search(r"%s\s+%s\s*\{\s*(\w+):\s*([^,}]+),?\s*\}" % (kind, name), src)
+                if not (im and fm and im.group(1) == fm.group(1)
+                        and im.group(2).replace("::<", "<") == fm.group(2).strip()
+                        and re.search(r"Ok\(%s \{ %s \}\)" % (name, fm.group(1)), src)):
+                    raise Untranslatable("%s %s neither derives Deserialize nor has the accepted hand-written impl" % (kind, name))
             attrs.add("derive")
             continue
         sm = re.fullmatch(r"serde\s*\((.*)\)", a)
